@@ -6866,7 +6866,7 @@ func ruleCtxScript(w *World, r *Report) {
 			}
 			if f := c.StaticCallee(); f != nil && reaches[f] {
 				runs = append(runs, in)
-			} else if f == nil && !c.IsInvoke() {
+			} else if _, isBuiltin := c.Value.(*ssa.Builtin); f == nil && !c.IsInvoke() && !isBuiltin {
 				runs = append(runs, in) // a thunk built by a function that reaches RunJavascript
 			}
 		})
